@@ -18,7 +18,9 @@ const dKey = "svc"
 const dKey2 = "svc.v2" // a second service whose name extends the first one as a string: its keys are not under "svc/"
 
 // each key carries one value during its life (as publishers produce)
-var dValueOf = map[string]string{"k1": "vA", "k2": "vA", "k3": "vB", "o1": "vC"}
+// ("k1b" is the key of k1 in a later life of its publisher, now carrying vB: a key carries
+// one value during its life, but it may expire and be registered again with another one)
+var dValueOf = map[string]string{"k1": "vA", "k2": "vA", "k3": "vB", "o1": "vC", "k1b": "vB"}
 
 type dSub struct {
 	s         *discov.Subscriber
@@ -83,6 +85,7 @@ func newDSys(r *vrt.Run) *dSys {
 }
 
 func full(k string) string {
+	k = strings.TrimSuffix(k, "b")
 	if strings.HasPrefix(k, "o") {
 		return dKey2 + "/" + k
 	}
@@ -261,8 +264,12 @@ func (s *dSys) apply(op string) bool {
 			s.pending = append(s.pending, op)
 		}
 	case "del":
-		if _, ok := s.f.KV[full(f[1])]; !ok {
+		cur, ok := s.f.KV[full(f[1])]
+		if !ok {
 			return false
+		}
+		if cur != dValueOf[f[1]] {
+			op = "del:" + f[1] + "b" // the key is in its later life
 		}
 		s.f.DelKV(full(f[1]))
 		if s.f.Connected && s.watched(f[1]) {
@@ -407,7 +414,7 @@ func (s *dSys) canon() string {
 func TestVerifDiscovHistories(t *testing.T) {
 	defer vrt.WriteReport()
 	logx.Disable()
-	ops := []string{"sub:n", "sub:x", "sub:o", "subgap:k1", "reconnectgap:k2", "put:o1", "del:o1", "put:k1", "put:k2", "put:k3", "del:k1", "del:k2", "del:k3", "deliver", "disconnect", "reconnect"}
+	ops := []string{"sub:n", "sub:x", "sub:o", "subgap:k1", "reconnectgap:k2", "put:o1", "del:o1", "put:k1", "put:k1b", "put:k2", "put:k3", "del:k1", "del:k2", "del:k3", "deliver", "disconnect", "reconnect"}
 	depth := 7
 	if vrt.Thorough() {
 		depth = 9
@@ -486,6 +493,53 @@ func TestVerifDiscovReloadRace(t *testing.T) {
 			r.Outcome("%v", got)
 			if fmt.Sprint(got) != want {
 				r.Failf("after all delivered events were processed Values() lists %v, the live keys' values are %s (a concurrent reader polled Values())", got, want)
+			}
+		})
+	}
+	// a second subscriber joins the cluster while a watch event is being delivered: once
+	// everything delivered has been processed, the newcomer too lists exactly the live values
+	for _, ev := range []string{"put", "del"} {
+		ev := ev
+		vrt.Explore(vrt.Options{Name: "discov/join-vs-event/" + ev, Bound: bound, Budget: vrt.FairBudget(2), Prune: true}, func(r *vrt.Run) {
+			s := newDSys(r)
+			s.f.PutKV(full("k1"), "vA")
+			s.f.PutKV(full("k3"), "vB")
+			s.subscribe(false)
+			vrt.Settle()
+			want := "[vA vB vC]"
+			if ev == "put" {
+				s.f.PutKV(full("o1"), "vC") // not under svc/
+				s.f.PutKV(dKey+"/k4", "vC")
+			} else {
+				s.f.DelKV(full("k3"))
+				want = "[vA]"
+			}
+			var sub2 *discov.Subscriber
+			vrt.Go(func() { s.f.Deliver() })
+			vrt.Go(func() {
+				var err error
+				sub2, err = discov.NewSubscriber(append([]string{}, dEndpoints...), dKey)
+				if err != nil {
+					r.Failf("NewSubscriber: %v", err)
+				}
+			})
+			vrt.Settle()
+			if s.f.Pending() {
+				s.f.Deliver() // whatever the join's own watch was handed (changes since its snapshot)
+				vrt.Settle()
+			}
+			if sub2 == nil {
+				return
+			}
+			for i, sub := range []*discov.Subscriber{s.subs[0].s, sub2} {
+				got := append([]string{}, sub.Values()...)
+				sort.Strings(got)
+				if i == 1 {
+					r.Outcome("%v", got)
+				}
+				if fmt.Sprint(got) != want {
+					r.Failf("after all delivered events were processed subscriber %d lists %v, the live keys' values are %s", i, got, want)
+				}
 			}
 		})
 	}
